@@ -573,15 +573,19 @@ void Handler::addConstraint( detail::IHandlerConstraint* ihc)
 void Handler::evalArguments( int argc, char* argv[]) noexcept( false)
 {
 
+   // an empty argument vector (argc == 0) does not even contain the name of
+   // the program
+   const char*  arg0 = (argc > 0) ? argv[ 0] : nullptr;
+
    // first (try to) read the arguments from the file
    if (mReadProgramArguments)
    {
-      readEvalFileArguments( argv[ 0]);
+      readEvalFileArguments( arg0);
    } // end if
 
    if (mCheckEnvVar)
    {
-      checkReadEnvVarArgs( argv[ 0]);
+      checkReadEnvVarArgs( arg0);
    } // end if
 
    // make sure that mpLastArg is reset at the end, in case the same object is
@@ -964,6 +968,10 @@ void Handler::readEvalFileArguments( const char* arg0)
 
    assert( (mReadMode & ReadMode::file) == 0);
 
+   // without the name of the program there is no file to look for
+   if (arg0 == nullptr)
+      return;
+
    // have to copy the path since basename() may want to modify it
    std::unique_ptr< char[]>  copy( new char[ ::strlen( arg0) + 1]);
 
@@ -998,6 +1006,10 @@ void Handler::checkReadEnvVarArgs( const char* arg0)
 
    if (mEnvVarName.empty())
    {
+      // without the name of the program there is no variable to look for
+      if (arg0 == nullptr)
+         return;
+
       std::unique_ptr< char[]>  copy( new char[ ::strlen( arg0) + 1]);
 
       ::strcpy( copy.get(), arg0);
